@@ -1293,9 +1293,70 @@ Proof.
       repeat peel; cbn [ttyp] in *; discriminate.
 Qed.
 
+(* ================================================================== *)
+(* 6. Byte level: Compile                                              *)
+(* ================================================================== *)
+Lemma map_ITok_inj a : forall b, map ITok a = map ITok b -> a = b.
+Proof.
+  induction a as [|x a IH]; intros [|y b] H; cbn [map] in H; try discriminate; [reflexivity|].
+  inversion H; subst. f_equal. apply IH. assumption.
+Qed.
+
+Lemma lexed_shape s ts :
+  lex_all s = map ITok ts ++ [ITok (Tok TEnd [])] ->
+  (List.length ts <= List.length s)%nat /\ Forall (fun t => ttyp t <> TEnd) ts.
+Proof.
+  intros E. destruct (Termination.lex_all_shape s) as (toks & last & E2 & _ & Hne & Hl).
+  rewrite E in E2. apply app_inj_tail in E2. destruct E2 as [E2 _].
+  apply map_ITok_inj in E2. subst. split; assumption.
+Qed.
+Lemma lexed_length s ts :
+  lex_all s = map ITok ts ++ [ITok (Tok TEnd [])] -> (List.length ts <= List.length s)%nat.
+Proof. intros E. apply (lexed_shape s ts E). Qed.
+
+(* every string that lexes to a sentence of the grammar which passes the static checks compiles *)
+Theorem compile_complete : forall s ts,
+  lex_all s = map ITok ts ++ [ITok (Tok TEnd [])] -> gE ts -> static_ok ts ->
+  exists n, Api.compile s = Ok n.
+Proof.
+  intros s ts E Hg Hs. unfold Api.compile, parse. rewrite E.
+  apply parser_complete_static; try assumption.
+  pose proof (lexed_length s ts E). unfold parse_fuel. lia.
+Qed.
+
+(* a string that lexes to a sentence without "&" is never a syntax error of the parser *)
+Theorem compile_no_syntax_error : forall s ts,
+  lex_all s = map ITok ts ++ [ITok (Tok TEnd [])] -> gE ts -> Forall lex_valid ts ->
+  (forall t, In t ts -> ttyp t <> TExpression) ->
+  match Api.compile s with
+  | Ok _ => True
+  | Err e => Api.parse_category e <> Api.CSyntax
+  | _ => False
+  end.
+Proof.
+  intros s ts E Hg Hv Hamp. unfold Api.compile, parse. rewrite E.
+  apply no_syntax_error; try assumption.
+  pose proof (lexed_length s ts E). unfold parse_fuel. lia.
+Qed.
+
+(* together with compile_sound (Proofs/Grammar.v): for strings whose tokens pass the static checks,
+   Compile succeeds exactly on the sentences of the grammar *)
+Theorem compile_iff_sentence : forall s ts,
+  lex_all s = map ITok ts ++ [ITok (Tok TEnd [])] -> static_ok ts ->
+  ((exists n, Api.compile s = Ok n) <-> gE ts).
+Proof.
+  intros s ts E Hs. split.
+  - intros [n Hn]. unfold Api.compile, parse in Hn. rewrite E in Hn.
+    eapply parser_sound; [apply (lexed_shape s ts E)|exact Hn].
+  - intros Hg. eapply compile_complete; eassumption.
+Qed.
+
 Print Assumptions parser_complete.
 Print Assumptions syntax_error_only_at_amp.
 Print Assumptions parser_complete_static.
 Print Assumptions parser_complete_call_free.
 Print Assumptions parser_incomplete_example.
 Print Assumptions static_ok_call_example.
+Print Assumptions compile_complete.
+Print Assumptions compile_no_syntax_error.
+Print Assumptions compile_iff_sentence.
